@@ -313,7 +313,11 @@ pub fn decode(target: &str, data: &[u8]) -> Vec<(&'static str, Value)> {
                     _ => ann.push(c15::AnnOp { kind, rec: rec_id, name: format!("{} (rejected call)", rec_names[rec]), term: Some(absent(&mut r, &ids)) }),
                 }
             }
-            let case = c15::Case { terms, parents, ann, version: (r.u16() % 10000, r.u8(), r.u8()), version_at: r.u8() % 4, defaults };
+            let version = (r.u16() % 10000, r.u8(), r.u8());
+            let version_at = r.u8() % 4;
+            // (read last, so that older corpus files decode as before)
+            let self_parent = if r.u8() % 8 == 1 { Some(ids[r.below(n)]) } else { None };
+            let case = c15::Case { terms, parents, ann, version, version_at, defaults, self_parent };
             vec![("C15", serde_json::to_value(case).unwrap())]
         }
         // base facts + edit script
